@@ -14,6 +14,8 @@ import (
 var Hostile = []string{
 	"a", "a!", "a@", "a@1", "a@1@2", "a#b", "ab", "a\x00", "@", "@@", "b@9", "b@10", "\xff", "k/1", "k/10", "k/2",
 	"b", "b!", "c", "A", "a ", "a@0", "zz", "z@", "\x01", "a\xff", "a@@", "0", "00", "1@1",
+	// multi-byte UTF-8 neighbours that share lead bytes and differ in a continuation byte
+	"城市一", "城市二", "城市", "ключ1", "ключ2", "é", "è", "ée",
 }
 
 // Keys returns n user keys of the given profile.
